@@ -3,6 +3,10 @@ init command / admin command (concretisation by construction, syntax from docs/c
 docs/tcp-admin-interface.md), the two driver stages, and the field-by-field comparison of what the
 real code built with the record TLC computed.
 
+The unit that is loaded is a LIST of entries of one section kind (Config.tla section 4): one TOML
+document with several sections / blacklist lines, one configuration file with several init commands,
+one sequence of admin commands.  A single entry is a list of one.
+
 Stage 1 (package main of the relay, through `go test -overlay`, nothing added to /repo): every
 configuration-file text goes through the real readConfigFile -- the function main() uses.
 Stage 2 (harness/conf): toml.Decode + cfg.InitTable / imperatives.Apply on a real table."""
@@ -15,13 +19,15 @@ ALL_TYPES = {"sendAllMatch", "sendFirstMatch", "consistentHashing"}
 EXPAND_ENV = dict(GRAFANA_NET_ADDR="http://gnet.example/metrics", GRAFANA_NET_API_KEY="s3cr3t-key",
                   GRAFANA_NET_USER_ID="4711")
 GNET_ADDR = "http://127.0.0.1:1/metrics"     # nothing listens on port 1: the route keeps retrying, harmlessly
+BOOL_NAMES = ["sslverify", "spool", "blocking", "pickle", "cache", "dropRaw"]
 DEVIATIONS_CASES = ["swap_buf", "dest_shift", "substr_dropped", "bool_inverted", "cache_same_default"]
 
 
 def base_consts(**kw):
     c = dict(Mode="cases", Kinds=set(ALL_KINDS), RouteTypes=set(ALL_TYPES), MaxDests=2, MaxOpts=1, NVals=1,
              DeepKinds=set(), DeepTypes=set(), DeepDests=0, DeepOpts=0,
-             Alphabet={"$"}, MaxLen=0, Deviation="")
+             Alphabet={"$"}, MaxLen=0, Deviation="",
+             MaxList=1, FullNames=set(), RandK=1, RandOpts=1, RandN=1)
     c.update(kw)
     return c
 
@@ -32,11 +38,11 @@ def gen_cases(ctx, consts, simulate=None, depth=None, timeout=1200):
     if simulate:
         args = ["-depth", str(depth), "-seed", str(ctx.seed)]
     r = ctx.tlc("Config", "Config_cases.cfg", consts=consts, workers=1, timeout=timeout,
-                simulate=simulate, args=args, heap="6g")
+                simulate=simulate, args=args, heap="6g", count=False)
     out = []
     for s in ctx.tlc_printed(r, "@@C"):
         out.append(json.loads(s))
-    return out
+    return r, out
 
 
 def gen_texts(ctx, alphabet, maxlen, simulate=None, depth=None, timeout=1200):
@@ -45,36 +51,86 @@ def gen_texts(ctx, alphabet, maxlen, simulate=None, depth=None, timeout=1200):
     if simulate:
         args = ["-depth", str(depth), "-seed", str(ctx.seed)]
     r = ctx.tlc("Config", "Config_expand.cfg", consts=c, workers=1, timeout=timeout, simulate=simulate, args=args,
-                heap="6g")
-    return [json.loads(s) for s in ctx.tlc_printed(r, "@@X")]
+                heap="6g", count=False)
+    return r, [json.loads(s) for s in ctx.tlc_printed(r, "@@X")]
 
 
-def nonvacuity(ctx, deviations_cases, with_expand=True):
+def gen_lists(ctx, consts, timeout=1200):
+    """Mode "leak" / "rlists": TLC enumerates lists of entries (as initial states) with the expected
+    entry of every position; the random draws of "rlists" are seeded by TLC's -seed"""
+    r = ctx.tlc("Config", "Config_lists.cfg", consts=consts, workers=1, timeout=timeout,
+                args=["-seed", str(ctx.seed)], heap="6g", count=False)
+    return r, [json.loads(s) for s in ctx.tlc_printed(r, "@@L")]
+
+
+def parallel(ctx, jobs, par=5):
+    """run independent single-worker TLC jobs side by side; jobs: [(name, fn)] -> {name: result}.
+    The jobs must call ctx.tlc with count=False (the counters are not thread-safe): the results
+    are accounted here."""
+    import concurrent.futures as cf
+    ctx.specdir()
+    out = {}
+    with cf.ThreadPoolExecutor(max_workers=par) as ex:
+        futs = {name: ex.submit(fn) for name, fn in jobs}
+        for name, f in futs.items():
+            out[name] = f.result()
+    return out
+
+
+def account(ctx, r, consts=None):
+    ctx.cov["states"] += r["distinct"]
+    ctx.cov["transitions"] += r["generated"]
+    ctx.cov["tlc_runs"].append(dict(module=r["module"], cfg=r["cfg"], consts=consts, distinct=r["distinct"],
+                                    generated=r["generated"], wall_s=r["wall"], ok=r["ok"], violated=r["violated"]))
+
+
+def nonvacuity(ctx, deviations_cases, with_expand=True, with_lists=True):
     """the spec's own sanity invariants are not vacuous: each named wrong reading of the
     documentation violates one of them"""
     want = {"swap_buf": "EachOptionItsOwnField", "dest_shift": "EachOptionItsOwnField",
             "substr_dropped": "EachOptionItsOwnField", "bool_inverted": "EachOptionItsOwnField",
             "cache_same_default": "CacheAsymmetry"}
+    jobs = []
+
+    def dev(d, c, inv):
+        def f():
+            r = ctx.tlc("Config", "Config_sanity.cfg", consts=c, workers=1, expect_ok=False, count=False, timeout=600)
+            if r["violated"] not in inv:
+                raise Machinery("deviation %s is not rejected by invariant %s (got %s); log %s" % (d, inv, r["violated"], r["log"]))
+            return r
+        return f
     for d in deviations_cases:
         c = base_consts(Kinds={"agg", "route"}, RouteTypes={"sendAllMatch"}, MaxDests=2, MaxOpts=1, Deviation=d)
-        r = ctx.tlc("Config", "Config_sanity.cfg", consts=c, workers=2, expect_ok=False, count=False, timeout=600)
-        if r["violated"] != want[d]:
-            raise Machinery("deviation %s is not rejected by invariant %s (got %s); log %s" % (d, want[d], r["violated"], r["log"]))
+        jobs.append((d, dev(d, c, [want[d]])))
     if with_expand:
         c = base_consts(Mode="expand", Alphabet={"$", "{", "}", "1", "HOST"}, MaxLen=4, Deviation="os_expand")
-        r = ctx.tlc("Config", "Config_sanity.cfg", consts=c, workers=2, expect_ok=False, count=False, timeout=600)
-        if r["violated"] != "OnlyDocVarsSubstituted":
-            raise Machinery("deviation os_expand is not rejected (got %s); log %s" % (r["violated"], r["log"]))
+        jobs.append(("os_expand", dev("os_expand", c, ["OnlyDocVarsSubstituted"])))
+    if with_lists:
+        # "options of an earlier section leak into a later one"
+        c = base_consts(Mode="leak", Kinds={"route", "gnet", "agg"}, RouteTypes={"sendAllMatch"}, MaxDests=1, MaxList=3,
+                        FullNames=set(BOOL_NAMES), Deviation="section_leak")
+        jobs.append(("section_leak", dev("section_leak", c, ["UnsetTakesDefaultInList", "OptionStaysInItsEntry",
+                                                             "EntriesIndependent"])))
+    parallel(ctx, jobs, par=3)
 
 
-def dedup(cases):
+def entry_sig(c):
+    return [c["kind"], c["v1"], c["v2"], c["v3"], c["nd"], sorted((o["scope"], o["name"], o["text"]) for o in c["opts"])]
+
+
+def wrap(c):
+    """a single entry (Mode "cases") as a list of one"""
+    return dict(section="route" if c["kind"] in ("route", "gnet") else c["kind"], entries=[c], forms=c["forms"],
+                added={k: v for k, v in c["toml"].items() if k.startswith("added_")})
+
+
+def dedup(lists):
     seen, out = set(), []
-    for c in cases:
-        k = json.dumps([c["kind"], c["v1"], c["v2"], c["v3"], c["nd"],
-                        sorted((o["scope"], o["name"], o["text"]) for o in c["opts"])])
+    for l in lists:
+        k = json.dumps([entry_sig(c) for c in l["entries"]])
         if k not in seen:
             seen.add(k)
-            out.append(c)
+            out.append(l)
     return out
 
 
@@ -131,40 +187,52 @@ def dest_string(case, i, rng):
     return " ".join([addr] + ["%s=%s" % (o["name"], o["text"]) for o in opts_of(case, "d%d" % (i + 1), rng)])
 
 
-def render_toml(case, env, key, rng):
+def toml_section(case, env, key, rng):
+    """one entry as a TOML section (blacklist: the line, without quotes)"""
     p = {k: env.subst(v, key) for k, v in case["params"].items()}
     kind = case["kind"]
     ropts = opts_of(case, "r", rng)
-    L = [env.header()]
     if kind == "black":
-        L.append("blacklist = [\n  %s\n]" % q(p["method"] + " " + p["value"]))
-    elif kind == "rewriter":
+        return p["method"] + " " + p["value"]
+    if kind == "rewriter":
         lines = ["old = " + q(p["old"]), "new = " + q(p["new"]), "max = " + p["max"]]
         lines += ["%s = %s" % (o["name"], toml_val(o)) for o in ropts]
         rng.shuffle(lines)
-        L.append("[[rewriter]]\n" + "\n".join(lines))
-    elif kind == "agg":
+        return "[[rewriter]]\n" + "\n".join(lines)
+    if kind == "agg":
         lines = ["function = " + q(p["fun"]), "regex = " + q(p["regex"]), "format = " + q(p["format"]),
                  "interval = " + p["interval"], "wait = " + p["wait"]]
         lines += ["%s = %s" % (o["name"], toml_val(o)) for o in ropts]
         rng.shuffle(lines)
-        L.append("[[aggregation]]\n" + "\n".join(lines))
-    elif kind == "route":
+        return "[[aggregation]]\n" + "\n".join(lines)
+    if kind == "route":
         lines = ["key = " + q(p["key"]), "type = " + q(p["type"])]
         lines += ["%s = %s" % (o["name"], toml_val(o)) for o in ropts]
         dests = ",\n".join("  " + q(dest_string(case, i, rng)) for i in range(case["nd"]))
         lines.append("destinations = [\n%s\n]" % dests)
         rng.shuffle(lines)
-        L.append("[[route]]\n" + "\n".join(lines))
-    elif kind == "gnet":
+        return "[[route]]\n" + "\n".join(lines)
+    if kind == "gnet":
         lines = ["key = " + q(p["key"]), "type = 'grafanaNet'", "addr = " + q(p["addr"]), "apiKey = " + q(p["apiKey"]),
                  "schemasFile = " + q(p["schemasFile"]), "aggregationFile = " + q(p["aggregationFile"])]
         lines += ["%s = %s" % (o["name"], toml_val(o)) for o in ropts]
         rng.shuffle(lines)
-        L.append("[[route]]\n" + "\n".join(lines))
+        return "[[route]]\n" + "\n".join(lines)
+    raise Machinery("kind " + kind)
+
+
+def entry_key(key, i):
+    return "%se%d" % (key, i + 1)
+
+
+def render_toml(lst, env, key, rng):
+    """the list as ONE configuration file: the sections in list order (blacklist: one array)"""
+    secs = [toml_section(c, env, entry_key(key, i), rng) for i, c in enumerate(lst["entries"])]
+    if lst["section"] == "black":
+        body = "blacklist = [\n%s\n]" % ",\n".join("  " + q(x) for x in secs)
     else:
-        raise Machinery("kind " + kind)
-    return "\n".join(L) + "\n"
+        body = "\n\n".join(secs)
+    return env.header() + "\n" + body + "\n"
 
 
 def render_cmd(case, env, key, rng):
@@ -195,16 +263,23 @@ def render_cmd(case, env, key, rng):
     raise Machinery("kind " + kind)
 
 
-def render_init(case, env, key, rng):
-    return env.header() + "[init]\ncmds = [\n  %s\n]\n" % q(render_cmd(case, env, key, rng))
+def render_cmds(lst, env, key, rng):
+    """the list as a sequence of commands, in list order"""
+    return [render_cmd(c, env, entry_key(key, i), rng) for i, c in enumerate(lst["entries"])]
+
+
+def render_init(lst, env, key, rng):
+    """the list as ONE configuration file with the commands under [init]"""
+    return env.header() + "[init]\ncmds = [\n%s\n]\n" % ",\n".join("  " + q(x) for x in render_cmds(lst, env, key, rng))
 
 
 def expected(case, form, env, key):
+    """TLC's record for one entry in one form (the added_* counters are checked per list)"""
     e = dict(case["toml"])
     d = case["initdiff"] if form == "init" else case["cmddiff"] if form == "cmd" else {}
     if isinstance(d, dict):       # an empty TLA+ function prints as []
         e.update(d)
-    return {k: env.subst(v, key) for k, v in e.items()}
+    return {k: env.subst(v, key) for k, v in e.items() if not k.startswith("added_")}
 
 
 # ----------------------------------------------------------------- driver stages
@@ -244,8 +319,8 @@ def run_expand(ctx, items, tag):
     return res
 
 
-def run_loader(ctx, env, loads, header_text, chunk=5000, gnet_chunk=150):
-    """loads: [{id, kind, form, key, text}] -> {(id, form): record}.  One `go test`; the test binary
+def run_loader(ctx, env, loads, header_text, chunk=2500, gnet_chunk=150, par=3):
+    """loads: [{id, kind, form, text | cmds}] -> {(id, form): record}.  One `go test`; the test binary
     re-executes itself per chunk (every loaded entry leaks a few goroutines: AlignedTick of
     aggregators, grafanaNet config posters)."""
     hdr = os.path.join(ctx.out, "conf_header.toml")
@@ -255,7 +330,7 @@ def run_loader(ctx, env, loads, header_text, chunk=5000, gnet_chunk=150):
     outp = os.path.join(ctx.out, "conf_out.ndjson")
     r = ctx.go_test("conf", run="^TestConf$", timeout=3000, expect_ok=False,
                     env=dict(VERIF_CONF_IN=inp, VERIF_CONF_OUT=outp, VERIF_CONF_HEADER=hdr,
-                             VERIF_CONF_CHUNK=chunk, VERIF_CONF_GNET_CHUNK=gnet_chunk, VERIF_CONF_PAR=2))
+                             VERIF_CONF_CHUNK=chunk, VERIF_CONF_GNET_CHUNK=gnet_chunk, VERIF_CONF_PAR=par))
     recs = ctx.read_ndjson(outp) if os.path.exists(outp) else []
     res = {(rec["id"], rec["form"]): rec for rec in recs}
     prog = []
